@@ -170,3 +170,35 @@ def run(ctx):
                        what="PropertyColumn::%s can add values without widening the zone map: min/max pruning can claim 'no match' for an existing value"
                             % f.id.split("::")[-1], where=f.loc())
     ctx.floor("R4", n4, 2, "PropertyColumn methods that change `values`")
+    # ---- R6 zone-map predicates say 'no' only on a definite order (rules/c14.py zone_map_definite_no)
+    zone_map_definite_no(ctx, ctx.program(), "R6")
+
+def zone_map_definite_no(ctx, P, rule):
+    """min/max pruning answers 'definitely no match' only on a definite order: after comparing the probe with a bound, a
+    zone-map predicate returns false only on paths where compare_values produced Some(<a definite Ordering>). An
+    incomparable pair (None: different value types, NaN) must answer 'might match', because the bounds of a mixed-type
+    column only describe the values that could be ordered (shared by C10 and C14)."""
+    from .flow import return_table
+    n = 0
+    for f in sorted(P.methods_of("ZoneMapEntry"), key=lambda f: f.id):
+        if not f.id.split("::")[-1].startswith("might_contain") or f.kind == "closure":
+            continue
+        cmp_blocks = [bi for bi, t in f.calls() if callee_name(t).endswith("zone_map::compare_values")]
+        if not cmp_blocks:
+            continue
+        n += 1
+        after = set()
+        for b in cmp_blocks:
+            after |= set(f.reachable_blocks(b))
+        bad = []
+        for v, facts, bi, ln in return_table(P, f):
+            if not (v[0] == "const" and v[1] in ("0", "false")) or bi not in after:
+                continue
+            definite = any(x[0] == "variant" and x[1] == "core::cmp::Ordering" and any(t.endswith("compare_values") for t in x[3]) for x in facts)
+            if not definite:
+                bad.append(ln)
+        ctx.ob(rule, "%s#no-only-on-definite-order" % short_id(f.id), not bad,
+               what="%s answers 'no match' (line %s) on a path where the comparison of the probe with the bound has not produced a "
+                    "definite order (incomparable values included): a chunk holding matching values of another type is pruned, and "
+                    "the range / filter path returns fewer rows than a scan" % (short_id(f.id), bad), where=f.loc(bad[0] if bad else None))
+    ctx.floor(rule, n, 3, "zone-map predicates that compare a probe with min/max")
